@@ -39,56 +39,42 @@ def showVer : Py (Option VersionInfo) → String
 
 def mkFile (k : FileKind) (d : Bytes) (pos : Nat) : PyFile := { data := d, pos := pos, kind := k }
 
-/-- one `pe.find_*` call: rendered answer (result tokens + final `fh.tell()`) and the file afterwards -/
-def peOpF (op : String) (f : PyFile) (start : Option Nat) (maxrange : Nat) : Option (String × PyFile) :=
-  match op with
-  | "mz" =>
-    let r := findMzOffset f start maxrange
-    some (s!"{showOptNat r.1} {r.2.tell}", r.2)
-  | "arch" =>
-    let r := findArchitecture f start maxrange
-    some (s!"{match r.1 with | none => "none" | some a => a.name} {r.2.tell}", r.2)
-  | "stamps" =>
-    let r := findCompileStamps f start maxrange
-    match r.1 with
-    | .error e => some ("exc " ++ e.name, r.2)
-    | .ok (c, x) => some (s!"ok {showOptInt c} {showOptInt x} {r.2.tell}", r.2)
-  | "mmz" =>
-    let r := findMagicMz f start maxrange
-    some (s!"{showOptBytes r.1} {r.2.tell}", r.2)
-  | "mpe" =>
-    let r := findMagicPe f start maxrange
-    match r.1 with
-    | .error e => some ("exc " ++ e.name, r.2)
-    | .ok m => some (s!"ok {showOptBytes m} {r.2.tell}", r.2)
-  | "ppa" =>
-    let r := findStagePrependAppend f start maxrange
-    match r.1 with
-    | .error e => some ("exc " ++ e.name, r.2)
-    | .ok (p, a) => some (s!"ok {showOptBytes p} {showOptBytes a} {r.2.tell}", r.2)
+def peOpTok (s : String) : Option PeOp :=
+  match s with
+  | "mz" => some .mz
+  | "arch" => some .arch
+  | "stamps" => some .stamps
+  | "mmz" => some .mmz
+  | "mpe" => some .mpe
+  | "ppa" => some .ppa
   | _ => none
 
+/-- result tokens followed by the final `fh.tell()`; an exception is rendered alone -/
+def showPeOut (o : PeOut) (pos : Nat) : String :=
+  match o with
+  | .mz r => s!"{showOptNat r} {pos}"
+  | .arch r => s!"{match r with | none => "none" | some a => a.name} {pos}"
+  | .stamps (.error e) => "exc " ++ e.name
+  | .stamps (.ok (c, x)) => s!"ok {showOptInt c} {showOptInt x} {pos}"
+  | .mmz r => s!"{showOptBytes r} {pos}"
+  | .mpe (.error e) => "exc " ++ e.name
+  | .mpe (.ok m) => s!"ok {showOptBytes m} {pos}"
+  | .ppa (.error e) => "exc " ++ e.name
+  | .ppa (.ok (p, a)) => s!"ok {showOptBytes p} {showOptBytes a} {pos}"
+
 def peOp (op : String) (f : PyFile) (start : Option Nat) (maxrange : Nat) : String :=
-  match peOpF op f start maxrange with
-  | some r => r.1
+  match peOpTok op with
+  | some o => let r := peCall f start maxrange o; showPeOut r.1 r.2.tell
   | none => "bad-op"
 
-/-- several calls on the SAME file object: items `op:start:seek:expect` (`seek` = `-` or an absolute `fh.seek` before the call) -/
-def peHistory (maxrange : Nat) : PyFile → List String → Option (List String)
-  | _, [] => some []
-  | f, item :: rest =>
-    match item.splitOn ":" with
-    | [op, start, sk, _expect] =>
-      match optTok natTok start, (if sk == "-" then some none else (natTok sk).map some) with
-      | some start, some sk =>
-        let f0 := match sk with
-          | some p => seekNat f p
-          | none => f
-        match peOpF op f0 start maxrange with
-        | some (out, f1) => (peHistory maxrange f1 rest).map (out :: ·)
-        | none => none
-      | _, _ => none
-    | _ => none
+/-- items `op:start:seek:expect` (`seek` = `-` or an absolute `fh.seek` before the call) -/
+def peCallTok (item : String) : Option PeCall :=
+  match item.splitOn ":" with
+  | [op, start, sk, _expect] =>
+    match peOpTok op, optTok natTok start, (if sk == "-" then some none else (natTok sk).map some) with
+    | some op, some start, some sk => some ⟨op, start, sk⟩
+    | _, _, _ => none
+  | _ => none
 
 def archTok (s : String) : Option (Option Arch) :=
   if s == "none" then some none else if s == "x86" then some (some .x86) else if s == "x64" then some (some .x64) else none
@@ -150,8 +136,8 @@ def step : List String → String
   | ["pehist", k, d, maxrange, calls] =>
     match kindTok k, bytesTok d, natTok maxrange with
     | some k, some d, some maxrange =>
-      match peHistory maxrange (mkFile k d 0) (calls.splitOn "|") with
-      | some outs => " | ".intercalate outs
+      match (calls.splitOn "|").mapM peCallTok with
+      | some cs => " | ".intercalate ((peRun maxrange (mkFile k d 0) cs).map fun r => showPeOut r.1 r.2)
       | none => "bad-op"
     | _, _, _ => "bad-op"
   | ["cls", lo, hi] =>
